@@ -2,7 +2,7 @@
 From Coq Require Import List Arith Bool NArith.
 Import ListNotations.
 From SymfcV Require Import Tuples Group Concrete.
-From SymfcG Require Import SolverStruct.
+From SymfcG Require Import SolverStruct IndepGen.
 Local Open Scope nat_scope.
 
 (** Row numbering of the compact array: for a tuple whose first atom is translationally independent
@@ -36,6 +36,18 @@ Proof.
   intros Hv Hi Ht. split; [exact (omin_le_orbit_t N tp Hv i t Ht) | exact (omin_is_indep_t N tp Hv i Hi)].
 Qed.
 Print Assumptions c08_p2s_lowest_of_orbit.
+
+(** p2s_map as the source computes it: `get_indep_atoms_by_lat_trans` is the greedy column scan (whole-function match,
+    regenerated) and that scan returns exactly the orbit minima in increasing order, for every valid table; all nine
+    orbit / index routines and p2s_map take their independent atoms from it. *)
+Theorem c08_p2s_algorithm_in_force : indep_atoms_is_greedy_column_scan = true.
+Proof. reflexivity. Qed.
+Theorem c08_p2s_scan_returns_orbit_minima N tp :
+  valid_tp N tp = true -> indep_scan (length tp) N (act tp) = indep_t N tp.
+Proof. exact (indep_scan_t N tp). Qed.
+Print Assumptions c08_p2s_scan_returns_orbit_minima.
+Example c08_scan_ex : indep_scan 2 4 (act [[0; 1; 2; 3]; [2; 3; 0; 1]]) = [0; 1].
+Proof. reflexivity. Qed.
 
 (** Both outputs are comp @ (basis @ coefs) with the same coefficients; the compact matrix is the
     translation-compressed matrix scaled by 1/sqrt(n_lp), the same factor that C_trans carries. *)
